@@ -249,7 +249,7 @@ func c11Width() int {
 	return 2
 }
 
-//verif:entry HarnessStateStep unwind=12 reach=checked,forwarded,filtered summarize=(github.com/AliceO2Group/Control/core/task/sm.State).X,(github.com/AliceO2Group/Control/core/task.Status).X,github.com/AliceO2Group/Control/core/workflow.refState,github.com/AliceO2Group/Control/core/workflow.refStatus
+//verif:entry HarnessStateStep unwind=12 conform=12 reach=checked,forwarded,filtered summarize=(github.com/AliceO2Group/Control/core/task/sm.State).X,(github.com/AliceO2Group/Control/core/task.Status).X,github.com/AliceO2Group/Control/core/workflow.refState,github.com/AliceO2Group/Control/core/workflow.refStatus
 func HarnessStateStep() {
 	t := c11Build(vrt.IntRange("n", 1, c11Width()), 1, 1)
 	for i, k := range t.kids {
@@ -280,7 +280,7 @@ func HarnessStateStep() {
 	vrt.Reach("checked")
 }
 
-//verif:entry HarnessStatusStep unwind=12 reach=checked summarize=(github.com/AliceO2Group/Control/core/task/sm.State).X,(github.com/AliceO2Group/Control/core/task.Status).X,github.com/AliceO2Group/Control/core/workflow.refState,github.com/AliceO2Group/Control/core/workflow.refStatus
+//verif:entry HarnessStatusStep unwind=12 conform=12 reach=checked summarize=(github.com/AliceO2Group/Control/core/task/sm.State).X,(github.com/AliceO2Group/Control/core/task.Status).X,github.com/AliceO2Group/Control/core/workflow.refState,github.com/AliceO2Group/Control/core/workflow.refStatus
 func HarnessStatusStep() {
 	t := c11Build(vrt.IntRange("n", 1, c11Width()), 1, 1)
 	for i, k := range t.kids {
@@ -352,7 +352,7 @@ func HarnessStatusDeep() {
 
 // ---- the algebra the fold relies on ---------------------------------------------------------------
 
-//verif:entry HarnessStateAlgebra unwind=4
+//verif:entry HarnessStateAlgebra unwind=4 conform=12
 func HarnessStateAlgebra() {
 	a := sm.State(vrt.IntRange("a", 0, 7))
 	b := sm.State(vrt.IntRange("b", 0, 7))
@@ -367,7 +367,7 @@ func HarnessStateAlgebra() {
 	}
 }
 
-//verif:entry HarnessStatusAlgebra unwind=4
+//verif:entry HarnessStatusAlgebra unwind=4 conform=12
 func HarnessStatusAlgebra() {
 	a := task.Status(vrt.IntRange("a", 0, 4))
 	b := task.Status(vrt.IntRange("b", 0, 4))
